@@ -732,8 +732,47 @@ func c05MemoDecide(r *Run, fn *ssa.Function, calls []ssa.CallInstruction, isErr 
 
 	// ---- the record type, and the discipline of cells holding it
 	var recType types.Type
-	var loadCalls []ssa.CallInstruction
+	// the reads of a cell that the tests of a hit look at: those in the operand closure of the branch
+	// conditions that hold at the return, and those inside the module predicates among them
+	usedLoads := map[ssa.CallInstruction]bool{}
+	seenVal := map[ssa.Value]bool{}
+	var collect func(v ssa.Value, depth int)
+	collect = func(v ssa.Value, depth int) {
+		if v == nil || seenVal[v] || depth > 24 {
+			return
+		}
+		seenVal[v] = true
+		if ci, ok := v.(*ssa.Call); ok {
+			if mn, _ := atomicPointerMethod(ci); mn == "Load" {
+				usedLoads[ci] = true
+				return
+			}
+		}
+		if in, ok := v.(ssa.Instruction); ok {
+			for _, op := range in.Operands(nil) {
+				if op != nil {
+					collect(*op, depth+1)
+				}
+			}
+		}
+	}
+	for _, h := range recognised {
+		for f := range cx.facts[h.acc.blk] {
+			collect(f.cond, 0)
+		}
+		if h.acc.via != nil {
+			if f, ok := edgeFact(h.acc.blk, h.acc.via); ok {
+				collect(f.cond, 0)
+			}
+		}
+	}
 	for ci := range eng.loads {
+		if ci.Parent() != fn {
+			usedLoads[ci] = true
+		}
+	}
+	var loadCalls []ssa.CallInstruction
+	for ci := range usedLoads {
 		loadCalls = append(loadCalls, ci)
 		_, t := atomicPointerMethod(ci)
 		if recType == nil {
@@ -743,9 +782,13 @@ func c05MemoDecide(r *Run, fn *ssa.Function, calls []ssa.CallInstruction, isErr 
 			return m
 		}
 	}
+	if len(loadCalls) == 0 {
+		r.Fail(key+":record", r.FnPos(fn), "undecided: the read of the cell that the tests of a hit look at was not found")
+		return m
+	}
 	sort.Slice(loadCalls, func(i, j int) bool { return r.Where(loadCalls[i]) < r.Where(loadCalls[j]) })
 	recName := TypeName(recType)
-	r.Check(key+":record-read-once", len(loadCalls) == 1, r.Where(loadCalls[0]), fmt.Sprintf("the tests of a hit look at one record, read from the cell once (%d reads of a cell of %s found; two reads may see two different records, each matching only a part of the question)", len(loadCalls), recName))
+	r.Check(key+":record-read-once", len(loadCalls) == 1, r.Where(loadCalls[0]), fmt.Sprintf("the tests of a hit look at one record, read from the cell once (%d reads of a cell of %s feed the tests; two reads may see two different records, each matching only a part of the question)", len(loadCalls), recName))
 
 	// publications of a record of this type, anywhere in the module
 	type fill struct {
@@ -850,7 +893,7 @@ func c05MemoDecide(r *Run, fn *ssa.Function, calls []ssa.CallInstruction, isErr 
 	r.Check(key+":record-immutable", immOK, r.FnPos(fn), immDetail)
 
 	// ---- per hit: every leaf of every operand is covered
-	mc := &memoCover{r: r, eng: eng, fn: fn, st: st, recSide: recSide, usedFields: map[string]bool{}}
+	mc := &memoCover{r: r, eng: eng, fn: fn, st: st, recType: recType, recSide: recSide, usedFields: map[string]bool{}}
 	for _, f := range ownFills {
 		if a, ok := unbox(f.rec).(*ssa.Alloc); ok {
 			mc.fills = append(mc.fills, memoFill{call: f.call, alloc: a})
@@ -1017,6 +1060,7 @@ type memoCover struct {
 	eng        *memoEng
 	fn         *ssa.Function
 	st         *types.Struct
+	recType    types.Type
 	fills      []memoFill
 	recSide    func(string) (string, string, bool)
 	usedFields map[string]bool
@@ -1267,13 +1311,15 @@ type fillVal struct {
 	path   []string
 	v      ssa.Value // value mode
 	suffix string
-	at     *ssa.BasicBlock // block of the store that put the value there
+	at     *ssa.BasicBlock // block in which the value is handed on towards the record (the store's, or the φ-predecessor's)
+	to     *ssa.BasicBlock // … and the block entered from it, when it travels over a φ-edge
 	before ssa.Instruction // address mode: the allocation is complete (flows on) at this instruction
 }
 
 type arrival struct {
 	leaf ssa.Value
 	at   ssa.Instruction
+	to   *ssa.BasicBlock // when the value arrives over a φ-edge: the block entered from at.Block()
 }
 
 // arrivals: the values v can be, each with the instruction at which it is handed on towards `at`
@@ -1285,11 +1331,17 @@ func arrivals(v ssa.Value, at ssa.Instruction, depth int, out *[]arrival) {
 			if len(p.Instrs) == 0 {
 				continue
 			}
+			n := len(*out)
 			arrivals(e, p.Instrs[len(p.Instrs)-1], depth+1, out)
+			for k := n; k < len(*out); k++ {
+				if (*out)[k].to == nil && (*out)[k].at == p.Instrs[len(p.Instrs)-1] {
+					(*out)[k].to = ph.Block()
+				}
+			}
 		}
 		return
 	}
-	*out = append(*out, arrival{v, at})
+	*out = append(*out, arrival{leaf: v, at: at})
 }
 
 // fillAgrees: at every publication, what the record holds at the path was set from X (the same image
@@ -1307,6 +1359,9 @@ func (mc *memoCover) fillAgrees(steps []recStep, X string) string {
 					// a plain value: the step selects inside it
 					nv := fv
 					if stp.assert {
+						if fv.suffix == "" && isNilConst(unbox(fv.v)) {
+							continue // a nil interface has no dynamic type: this part of the test is not about it
+						}
 						nv.suffix += ".(" + stp.name + ")"
 					} else {
 						nv.suffix += "." + stp.name
@@ -1336,7 +1391,7 @@ func (mc *memoCover) fillAgrees(steps []recStep, X string) string {
 						if a, ok := u.(*ssa.Alloc); ok && paramSpill(a) == nil {
 							next = append(next, fillVal{alloc: a, at: s.Block(), before: ar.at})
 						} else {
-							next = append(next, fillVal{v: ar.leaf, at: s.Block()})
+							next = append(next, fillVal{v: ar.leaf, at: ar.at.Block(), to: ar.to})
 						}
 					}
 				}
@@ -1470,11 +1525,23 @@ func (mc *memoCover) agree(f memoFill, fv fillVal, X string) string {
 	if fv.at != nil {
 		cx := mc.eng.ctxOf(mc.fn)
 		d := mc.eng.blockConj(cx, fv.at, 0)
+		if fv.to != nil {
+			if f, ok := edgeFact(fv.at, fv.to); ok {
+				d = mc.eng.cap(cross(d, mc.eng.dnf(cx, f.cond, f.val, 0)))
+			}
+		}
 		all := len(d) > 0
+		base, asType := lastAssert(raw)
 		for _, c := range d {
 			found := false
+			// a way on which the value has another dynamic type than this path of the record selects: not about it
 			for _, at := range c {
-				if at.kind == "eq" && ((at.a == X && (at.b == got || at.b == raw)) || (at.b == X && (at.a == got || at.a == raw))) {
+				if asType != "" && at.kind == "type" && at.a == base && at.b != asType {
+					found = true
+				}
+			}
+			for _, at := range c {
+				if (at.kind == "eq" || at.kind == "bytes" || at.kind == "big") && ((at.a == X && (at.b == got || at.b == raw)) || (at.b == X && (at.a == got || at.a == raw))) {
 					found = true
 				}
 			}
@@ -1565,6 +1632,14 @@ func (mc *memoCover) fresh(v ssa.Value, depth int) (bool, string) {
 		return mc.fresh(x.X, depth+1)
 	case *ssa.UnOp:
 		if x.Op == token.MUL {
+			// a part of a published record: private and never written, like the record itself
+			if base, inside := recordBase(x.X, mc.recType); inside {
+				if ci, ok := base.(*ssa.Call); ok {
+					if mn, _ := atomicPointerMethod(ci); mn == "Load" {
+						return true, ""
+					}
+				}
+			}
 			// an element / field of a local whose every content is fresh
 			if a := addrBase(sliceBase(x.X)); a != nil && paramSpill(a) == nil {
 				return mc.fresh(a, depth+1)
@@ -1615,6 +1690,26 @@ func (mc *memoCover) equalToFresh(v ssa.Value, b *ssa.BasicBlock, depth int) boo
 		}
 	}
 	return false
+}
+
+// lastAssert: for "x.(T).f" the term x and the type name T of the last type assertion in it.
+func lastAssert(term string) (string, string) {
+	i := strings.LastIndex(term, ".(")
+	if i < 0 {
+		return "", ""
+	}
+	depth := 0
+	for j := i + 1; j < len(term); j++ {
+		if term[j] == '(' {
+			depth++
+		} else if term[j] == ')' {
+			depth--
+			if depth == 0 {
+				return term[:i], term[i+2 : j]
+			}
+		}
+	}
+	return "", ""
 }
 
 func memoShort(s string) string {
